@@ -579,7 +579,10 @@ def vu_pipeline(vu, pid, tier, seed, workroot, pool):
             compile_tu(vu, work, extra_defs=["VU_COVER"], out="tu_cover.gb")
         entries = discover_entries(vu, work)
         if vu.get("only_entries"):
-            entries = [e for e in entries if re.search(vu["only_entries"], e["name"])]
+            oe = vu["only_entries"]
+            if isinstance(oe, dict):        # per tier: the quick tier may run a subset of what the thorough tier runs
+                oe = oe.get(os.environ.get("VERIF_TIER_EFFECTIVE", "quick"), oe.get("quick"))
+            entries = [e for e in entries if re.search(oe, e["name"])]
         if os.environ.get("VERIF_ENTRY"):
             entries = [e for e in entries if re.search(os.environ["VERIF_ENTRY"], e["name"])]
     except Undecided as u:
